@@ -8,9 +8,11 @@
    The syntax check compile(code, '<string>', 'exec') is the oracle `chk`; theorems hold for every oracle.
 
    WHAT IS PROVED AND WHAT IS ONLY CHECKED (after the independent review, 2026-10-02):
-   (a) "terminates": the model is total by construction; the cost of Python's regex engine is NOT modelled — the harness
-       measures growth exponents on scaling families, confirmed in fresh processes at sizes n, 2n, 4n (five super-linear
-       families are kept findings `C13|scaling|…`: equation_re's bracket alternative, dotted names, and three unclosed-index shapes).
+   (a) "terminates": the model is total by construction.  The cost of Python's regex engine is NOT modelled; it is measured and
+       reported by the harness (`scale` cases: growth exponents and times in the evidence), NOT judged — a slow but terminating
+       parse does not violate the property.  Three regex sites are super-linear: equation_re alternative 2, term_re's open index
+       part (and its INVALID alternative), dotted names (inputs and exponents: ASSUMPTIONS in harness/props/C13.py); a fourth
+       was removed by commit 2d62135.  Only a persistent watchdog timeout counts as non-termination.
    (b) "only its own errors": proved (C13_every_exception_classified, C13_own_errors_only — unguarded since fix 1c7ed70 —, C13_own_errors_nocheck); inside the PUnmodelled hole the model stops INSIDE template.format (C13_unmodelled_only_inside_format),
        which fsic wraps in an except clause for all seven exception classes str.format can raise — that CPython fact is an
        assumption, exercised by generated format-spec inputs.
